@@ -1,5 +1,6 @@
 """C03 — Datatype descriptions, copies and compatibility verdicts are faithful."""
 import json
+import math
 import os
 import sys
 
@@ -118,19 +119,91 @@ def run_probe(dt, probe):
 # ---------------------------------------------------------------------------------------------
 # generators
 # ---------------------------------------------------------------------------------------------
+C03_SCALES = gen.SCALES + [0.5, 2.0, 0.2, 0.01, 0.3, 0.7, 0.05, 1e-6, 1 / 3, 3.3, 1e3]
+
+
+def quotient_class(k, scale):
+    """where the float quotient `(k*scale)/scale` lands relative to the grid index k it stands for (what
+    `int(round(limit / scale))` of export_datatype / export_value / __call__ has to undo): exact / below / above;
+    None when k*scale is not a grid point in the strict sense (round(quotient) * scale gives another float)"""
+    try:
+        x = k * scale
+        q = x / scale
+        if math.isinf(x) or int(round(q)) != k or float(int(round(q)) * scale) != x:
+            return None
+    except (OverflowError, ValueError):
+        return None
+    return 'exact' if q == k else 'below' if q < k else 'above'
+
+
+def draw_index(rng, scale, want=None):
+    """a grid index; with `want` one whose quotient class is `want` (searched from random starting points: which indices have an
+    inexact quotient depends on the bits of the scale)"""
+    for _ in range(400):
+        k = rng.choice([rng.randint(-20, 20), rng.randint(-20, 20), rng.randint(-5000, 5000), rng.randint(-2 ** 31, 2 ** 31)])
+        c = quotient_class(k, scale)
+        if c is not None and (want is None or c == want):
+            return k
+    return None
+
+
 def aligned_scaled(rng):
-    scale = rng.choice(gen.SCALES + [0.5, 2.0])
+    """a scaled leaf with grid-aligned limits (limit == index * scale as floats).  The indices come from a small catalogue (zero,
+    degenerate, huge) or from a search that covers, for both limits, the three ways the float quotient limit/scale can relate to
+    the index: exact, a hair below, a hair above (decimal scales like 0.1 give all three)"""
+    scale = rng.choice(C03_SCALES)
     r = rng.random()
-    if r < 0.2:
-        klo, khi = -16777216, 16777216
-    elif r < 0.3:
-        klo = khi = rng.choice([0, 1, -3, 10, 2 ** 24])
-    else:
-        klo, khi = sorted(rng.sample([0, 1, -1, 5, -5, 10, 100, -100, 1000, 2 ** 24, -2 ** 24, 2 ** 31, -2 ** 31, 3, 7], 2))
+    ks = None
+    if r < 0.12:
+        ks = (-16777216, 16777216)
+    elif r < 0.2:
+        k = rng.choice([0, 1, -3, 10, 2 ** 24])
+        ks = (k, k)
+    elif r < 0.45:
+        ks = tuple(sorted(rng.sample([0, 1, -1, 5, -5, 10, 100, -100, 1000, 2 ** 24, -2 ** 24, 2 ** 31, -2 ** 31, 3, 7], 2)))
+    elif r < 0.8:
+        # at least one limit with an inexact quotient (when the scale has such indices at all)
+        k1 = draw_index(rng, scale, rng.choice(['below', 'below', 'above']))
+        k2 = draw_index(rng, scale, rng.choice([None, None, 'below', 'above', 'exact']))
+        if k1 is not None and k2 is not None:
+            ks = tuple(sorted((k1, k2))) if rng.random() < 0.85 else (k1, k1)
+    if ks is None or quotient_class(ks[0], scale) is None or quotient_class(ks[1], scale) is None:
+        k1, k2 = draw_index(rng, scale), draw_index(rng, scale)
+        ks = tuple(sorted((k1 or 0, k2 or 0)))
+    klo, khi = ks
     lo, hi = klo * scale, khi * scale
     ar = rng.choice([scale, scale, 0.0, 0.5, 0.03])
     rr = rng.choice([1.2e-7, 1.2e-7, 0.0, 0.01])
     return {'t': 'scaled', 'scale': fj(scale), 'min': fj(lo), 'max': fj(hi), 'ar': fj(ar), 'rr': fj(rr)}
+
+
+def scaled_leaves(tree):
+    t = tree['t']
+    if t == 'scaled':
+        yield tree
+    elif t == 'array':
+        yield from scaled_leaves(tree['elem'])
+    elif t == 'tuple':
+        for e in tree['elems']:
+            yield from scaled_leaves(e)
+    elif t == 'struct':
+        for _, m in tree['members']:
+            yield from scaled_leaves(m)
+
+
+def quotient_classes(tree):
+    """evidence: quotient classes of the limits of the scaled leaves of a tree"""
+    out = []
+    for lt in scaled_leaves(tree):
+        s = _f(lt['scale'])
+        for lim in ('min', 'max'):
+            x = _f(lt[lim])
+            try:
+                k = int(round(x / s))
+                out.append(quotient_class(k, s) if k * s == x else 'not-aligned')
+            except (OverflowError, ValueError):
+                out.append('overflow')
+    return out
 
 
 def fix_scaled(rng, tree):
@@ -173,6 +246,52 @@ def gen_di(rng, maxdepth, kind=None):
     return dicodec.annotate(rng, tree, UNITS, FMTS)
 
 
+def limit_values(lt, wire):
+    """the described limits of a numeric leaf themselves and their neighbours on the grid / around the clamping band: what a
+    description that moved a limit by one step (or by one ulp) answers differently"""
+    t = lt['t']
+    if t == 'int':
+        lo, hi = lt['min'], lt['max']
+        return [lo, hi, lo - 1, hi + 1]
+    lo, hi = _f(lt['min']), _f(lt['max'])
+    if t == 'double':
+        return [lo, hi] if not wire or (abs(lo) < 1e300 and abs(hi) < 1e300) else []
+    s = _f(lt['scale'])
+    if wire:
+        kb = gen.grid_bounds(lt)
+        if kb is None:
+            return []
+        klo, khi = kb
+        return [klo, khi, klo + 1, khi - 1, klo - 1, khi + 1]
+    out = [lo, hi, lo + s, hi - s, lo - 0.4 * s, hi + 0.4 * s, lo - 0.6 * s, hi + 0.6 * s]
+    for x in (lo - s, hi + s):
+        out += [x, math.nextafter(x, math.inf), math.nextafter(x, -math.inf)]
+    return [x for x in out if not math.isinf(x)]
+
+
+def limit_probes(rng, plain, cap=36):
+    """probes at the limits of the numeric leaves (every run, not sampled): a valid value with one numeric leaf replaced"""
+    out, seen = [], set()
+    for attempt in range(3):
+        v = gen.gen_valid(rng, plain)
+        if v is None:
+            break
+        for wire in (False, True):
+            cand0 = gen.to_wire(rng, plain, v) if wire else gen.to_driver(rng, plain, v)
+            for path, lt in list(gen.numeric_leaf_paths(plain, cand0))[:4]:
+                if (path, wire) in seen:
+                    continue
+                seen.add((path, wire))
+                for x in limit_values(lt, wire):
+                    cand = gen.subst(cand0, path, x)
+                    if (wire and not dtcodec.is_json_value(cand)) or not dtcodec.encodable(cand):
+                        continue
+                    out.append({'mode': 'wire' if wire else 'py', 'cand': dtcodec.py_to_json(cand), 'prev': None})
+        if len(out) >= cap:
+            break
+    return out[:cap]
+
+
 def gen_probes(rng, plain, n):
     """probe values from the boundary catalogues of a plain tree: [{'mode','cand','prev'}] (protocol JSON)"""
     out = []
@@ -209,6 +328,7 @@ def gen_probes(rng, plain, n):
                 prev = None
         out.append({'mode': mode, 'cand': dtcodec.py_to_json(cand),
                     'prev': dtcodec.py_to_json(prev) if prev is not None else None})
+    out += limit_probes(rng, plain)
     # string lengths around the limits (the rebuild table's defaults are about lengths)
     for path, sub in dicodec.subtrees(plain):
         if sub['t'] == 'string' and not path:
@@ -1532,6 +1652,8 @@ def run(ctx):
                 res.count(f'{k}.root=' + c['tree']['t'])
                 res.count(f'{k}.classes=' + ('+'.join(dicodec.classes(c['tree'])) or 'plain'))
                 res.count(f'{k}.built=' + str(impl['built']).lower())
+                for qc in quotient_classes(c['tree']):
+                    res.count('scaled.limit/scale=' + str(qc))
                 for p in impl['probes']:
                     res.count('probe.original=' + ('ok' if isinstance(p['o'], dict) and 'ok' in p['o'] else 'bad' if p['o'] == 'bad' else 'other'))
                 if c['tree']['t'] in gen.CONTAINER_KINDS or json.dumps(impl['datainfo']).count('[') > 3:
